@@ -4,7 +4,7 @@ Hand-written character scanner; shares no regular expression with
 ofxtools/Parser.py.  Grammar accepted:
 
   body      := ws element ws
-  element   := '<' NAME '>' ( data ['</' NAME '>'] | ws children '</' NAME '>' )
+  element   := '<' NAME '>' ( data ['</' NAME '>'] | ws children '</' NAME '>' ) | '<' NAME [' '] '/>'   (empty aggregate)
   data      := CDATA-section | text-up-to-next-'<'   (non-blank after trimming)
   children  := ( element ws )*
 
@@ -47,6 +47,9 @@ def tokenize(text):
             kind = "start"
             if name.startswith("/"):
                 kind, name = "end", name[1:]
+            elif name.endswith("/"):
+                # XML empty-element tag: <NAME/> or <NAME /> = <NAME></NAME>
+                kind, name = "empty", name[:-1].rstrip(" ")
             if not name or any(ch not in NAME_CHARS for ch in name):
                 raise RefError(f"bad tag name {name!r} at {i}")
             toks.append((kind, name))
@@ -96,6 +99,14 @@ def parse(text):
             if root is not None and not stack:
                 raise RefError("second top-level element")
             stack.append([val, []])
+            i += 1
+        elif kind == "empty":
+            if root is not None and not stack:
+                raise RefError("second top-level element")
+            nxt = toks[i + 1] if i + 1 < n else None
+            if nxt and nxt[0] in ("data", "cdata"):
+                raise RefError(f"stray {nxt[0]} after empty-element tag <{val}/>")
+            attach((val, []))
             i += 1
         elif kind == "end":
             if not stack or stack[-1][0] != val:
